@@ -250,8 +250,8 @@ theorem Res.bind_eq_ok {α β} {x : Res α} {f : α → Res β} {b : β} :
 
 theorem widen_eq_ok {α} (t : ATag) (xs : List Val) (fs : List (Val → Res Val)) (extra : List Cat) (r : Res α) (a : α) :
     widen t xs fs extra r = .ok a ↔ r = .ok a := by
-  cases r <;> simp [widen]
-  split <;> simp
+  cases r <;> simp only [widen, reduceCtorEq]
+  split <;> (try split) <;> simp
 
 theorem getD_nf {xs : List Val} (h : ∀ x ∈ xs, NoFloat x) (n : Nat) : NoFloat (xs.getD n .null) := by
   rw [List.getD_eq_getElem?_getD]
